@@ -91,8 +91,24 @@ def abstract_out(r):
 EMPTY_OUT = {"chrom": "", "pos": 0, "ref": [], "alts": [], "snvpos": [], "filters": [], "gts": []}
 
 
+class Phases:
+    """wall time per phase of the check, written into the evidence (coverage.phase_s)"""
+
+    def __init__(self, ck):
+        import time
+
+        self.ck, self.t, self.cur, self.d, self.time = ck, time.time(), "tlc+replay", {}, time
+
+    def mark(self, name):
+        now = self.time.time()
+        self.d[self.cur] = round(self.d.get(self.cur, 0) + now - self.t, 1)
+        self.t, self.cur = now, name
+        self.ck.note("phase_s", dict(self.d))
+
+
 def main():
     ck = Check("C12")
+    ph = Phases(ck)
     tier = ck.tier
     rnd = random.Random(ck.seed)
     ck.rule = (
@@ -161,6 +177,7 @@ def main():
     ck.traces += n_states
     ck.note("model_states_replayed", n_states)
 
+    ph.mark("assemble")
     # ---- pipeline inputs ------------------------------------------------------
     inputs = []   # (label, text, call_extra_args)
     # (a) a seeded subset of the model states as haplotype VCFs (REF/ALT of any shape are valid call input)
@@ -220,6 +237,7 @@ def main():
     ck.note("assemble_runs", len(aruns))
     ck.note("assemble_runs_failed", n_asm_fail)
 
+    ph.mark("call")
     # ---- call / call-exact on every input -------------------------------------
     pruns = []
     for k, (label, text, cargs) in enumerate(inputs):
@@ -281,6 +299,7 @@ def main():
             if dl(cr["result"]["out"]) != dl(inproc["out"]):
                 ck.violation("cli-differs", {"cli": "mchap call-exact"}, key={"site": "cli:call-exact", "field": "records"})
         ck.note("cli_pipeline_runs", 2)
+    ph.mark("random-codec")
     # ---- code -> spec for the codec itself: seeded random records beyond the model bounds ----
     nrand = 400 if tier == "quick" else 5000
     rrecs = []
@@ -323,6 +342,7 @@ def main():
     ck.note("pipeline_program_runs", len(pruns))
     ck.note("assemble_record_shapes", shapes)
 
+    ph.mark("trace")
     tf = os.path.join(ck.wd, "trace.json")
     with open(tf, "w") as fh:
         json.dump(events, fh)
@@ -355,7 +375,8 @@ def main():
     if not good:
         if not ck.violations:
             ck.machinery_failure("no accepted pipeline pair to corrupt")
-        finish(ck, wdir)
+        ph.mark("end")
+    finish(ck, wdir)
     ck.sample({"kind": "pipeline-pair", "event": good[0]})
     bads = []
     b = copy.deepcopy(good[0]); b["out"]["alts"] = b["out"]["alts"][::-1] + [b["out"]["ref"]]; bads.append((b, "SameAlt"))
@@ -385,6 +406,7 @@ def main():
         if rej.get(i + 1) != clause:
             ck.machinery_failure("corrupted trace %d not rejected by %s (got %s)" % (i + 1, clause, rej.get(i + 1)))
     ck.note("corrupted_traces_rejected", len(bads))
+    ph.mark("end")
     finish(ck, wdir)
 
 
